@@ -66,8 +66,10 @@ type Opts struct {
 }
 
 var collideSegs = []string{"a", "ab", "abc", "b", "bc", "bcd", "c", "cd", "d", "abcd"}
-var wordSegs = []string{"com", "org", "acme", "core", "web", "api", "svc", "util", "db", "io"}
-var typeWords = []string{"Order", "User", "Cart", "Repo", "Service", "Ctl", "Mapper", "Util", "Gate", "Pay", "Stock", "Mail", "A", "B", "Ab", "Cd"}
+var wordSegs = []string{"com", "org", "acme", "core", "web", "api", "svc", "util", "db", "io", "graph", "node", "edge", "strict", "subgraph", "digraph"}
+var typeWords = []string{"Order", "User", "Cart", "Repo", "Service", "Ctl", "Mapper", "Util", "Gate", "Pay", "Stock", "Mail", "A", "B", "Ab", "Cd",
+	// perfectly ordinary class names that happen to be DOT keywords (case-insensitively)
+	"Node", "Edge", "Graph", "Digraph", "Subgraph", "Strict"}
 var mainDecoys = []string{"MainView", "Maintenance", "MainImpl", "Main2", "DoMain"}
 var methodWords = []string{"run", "save", "load", "find", "apply", "check", "send", "build", "init", "close"}
 var mainMethodDecoys = []string{"mainLoop", "Main", "domain", "main2"}
